@@ -100,7 +100,9 @@ def judge(argv, text, tmpdir, judge_all=False):
             fixed = cst.env_ok(lib) and not cst.parse(lib).root.has_error and (judge_all or nima.rt(lib) == lib)
         except Exception:  # noqa: BLE001
             fixed = False
-        if fixed and text.endswith("\n"):
+        # (a text that starts with a byte-order mark or whitespace is finding F01's input class: every gap offset is
+        # shifted and the edit output is no fixed point; the channel and stdout clauses above are still judged for it)
+        if fixed and text.endswith("\n") and not (text[:1].isspace() or text.startswith("\ufeff")):
             c3, so3, _se, e3 = nima.cli(["test"], so)
             if (so3, c3) != ("OK\n", 0):
                 fails.append(("test-rejects-emitted-file", {"stdout": so3, "code": c3}))
